@@ -147,6 +147,18 @@ def XoStep (l r child : Ga) : Prop :=
     ∀ i, i < r.genome.length →
       child.genome[i]? = if c1 ≤ i ∧ i < c2 then l.genome[i]? else r.genome[i]?
 
+/-- observed `recombination::base<i_ga>::run`: `p1` = pop[parent[0]], `cands` = the individuals the second parent can
+    be (pop[parent[1]], or the whole layer when the tournament has size 1), `dcross` / `dmut` = what the call added
+    to `summary::crossovers` / `summary::mutations` -/
+def GsStep (ss : List Slot) (brood : Nat) (p1 : Ga) (cands : List Ga) (off : Ga) (dcross dmut : Nat) : Prop :=
+  InRange ss off.genome ∧
+  if dcross = 0 then
+    ∃ p ∈ p1 :: cands, off.age = p.age ∧ off.genome.length = p.genome.length ∧
+      countDiff p.genome off.genome = dmut
+  else
+    dcross = brood ∧ ∃ p2 ∈ cands, off.age = max p1.age p2.age ∧ off.genome.length = p2.genome.length ∧
+      (dmut = 0 → XoStep p1 p2 off)
+
 /-! ## B. meaning of the extracted syntax -/
 
 /-! ### ages at the machine types of the code -/
